@@ -5,8 +5,14 @@
      - every non-error ACTION cell is demanded by an item of the state (shift of the terminal
        after the dot, reduce of a completed item on its lookahead, accept of S' -> S . on end);
      - every item's demand is in the table, every transition of an item is a Shift/GOTO cell.
-   NOT proved: C17_exact — the item annotation is exactly the LALR(1) lookahead sets (least
-   solution), one state per reachable core.  Decided per grammar by the check: tables read from
+   Proved (Tier B, for every grammar the generator accepts, no validator run): the same two
+   statements for the tables `generate` builds, with the item sets of its own machine as the
+   annotation (C17_all_tables_carry_the_invariants); the states of that machine are closed item
+   sets with pairwise distinct cores, its transitions are deterministic and complete, and each
+   target has exactly the core of the advanced kernel's closure (Build/LoopInv.v BInv,
+   Build/MachineSpec.v MInv).
+   NOT proved: C17_exact — the lookahead sets are the LEAST solution (they are proved closed
+   and justified item by item, which is what correctness of the parser needs).  Decided per grammar by the check: tables read from
    the emitted text compared cell for cell with a brute-force LALR(1) reference up to renumbering. *)
 From Coq Require Import List.
 From Kiki Require Import Base.Ord Base.Chars Data LR.Driver LR.Grammar LR.Inv LR.Validate LR.ValidateProofs.
@@ -26,5 +32,15 @@ Section C17.
   Proof. exact (validate_Inv T ann ft Hv). Qed.
 End C17.
 
+From Kiki Require Import Emit.Parser Pipeline PipelineProofs.
+
+Theorem C17_all_tables_carry_the_invariants : forall ho digest src out text,
+  perm_hash_order ho -> generate_full ho digest src = Ok (out, text) ->
+  exists pt (ann : list (list Grammar.item)) (ft : first_table),
+    ptable_of (go_file out) (go_table out) = Some pt /\
+    Inv pt ann (fseq ft) /\ Inv2 pt ann /\ (forall P (kind : P -> nat), FirstOK kind pt (fseq ft)).
+Proof. exact generate_tables_invariants. Qed.
+
 Print Assumptions C17_every_cell_is_demanded.
 Print Assumptions C17_every_demand_is_in_the_table.
+Print Assumptions C17_all_tables_carry_the_invariants.
